@@ -147,7 +147,7 @@ func (r *replayer) build() error {
 		filepath.Join(repoDir, "pkg/zzverif/vrt/vrt.go"): filepath.Join(verifDir, "harness/vrt/vrt.go"),
 	}
 	for _, f := range r.unit.Files {
-		repl[filepath.Join(pkgDir, "zz_verif_"+f)] = filepath.Join(r.propDir, f)
+		repl[filepath.Join(pkgDir, "zz_verif_"+filepath.Base(f))] = filepath.Join(r.propDir, f)
 	}
 	ov, _ := json.Marshal(map[string]interface{}{"Replace": repl})
 	ovFile := filepath.Join(scratch, "overlay.json")
@@ -267,7 +267,7 @@ func cmdCheck(args []string) int {
 			Overlay: map[string]string{}, VrtDir: filepath.Join(verifDir, "harness/vrt"), ModelsDir: filepath.Join(verifDir, "harness/models")}
 		propDir := filepath.Join(verifDir, "harness", strings.ToLower(prop))
 		for _, f := range u.Files {
-			ls.Overlay[filepath.Join(repoDir, u.Pkg, "zz_verif_"+f)] = filepath.Join(propDir, f)
+			ls.Overlay[filepath.Join(repoDir, u.Pkg, "zz_verif_"+filepath.Base(f))] = filepath.Join(propDir, f)
 		}
 		p, err := interp.Load(ls)
 		if err != nil {
